@@ -28,11 +28,28 @@ Route: comment-stripped C text -> tokens -> recursive-descent parser -> a small 
  * Statements become a chain of `let`s; an `if` whose branches do not return is a joined `let`, an `if`
    with a `return` continues both ways; file-local helper functions are translated as `@[simp]` definitions.
 
-STILL IGNORED (said here so that nobody assumes otherwise): the preprocessor beyond rejecting `#define`
-/`#undef` inside a translated file (macros from headers are only known as far as Constants.lean lists
-them); struct layout and `sizeof` values (`sizeof(T)` is only checked to name the allocated type); the byte
-size product of `calloc(n, size)` (the allocator's business); aliasing between different pointers; reads of
-uninitialised locals (they read as 0); loops (refused).
+ * LOOPS AND RECURSION: `while` / `for` / `do-while` become a fuel-bounded recursive definition
+   `<f>_loop<k>` over the variables the body assigns (`break` / `continue` supported, `return` inside a loop
+   refused); a directly recursive function takes `fuel` itself; running out of fuel sets `fault`.  A function
+   that loops, recurses or calls such a function has the extra parameter `fuel`.
+ * MACROS of the translated file (`#define X v`, `#define F(x) body`) are expanded textually, exactly as the
+   preprocessor does (no parentheses added); other directives than `#include` are refused.
+ * `float` is `Float32` (IEEE single, as on the target): conversions `Float32.ofNat` / `toUInt64`, the
+   operators as they are; no property of floating point is assumed anywhere.  A comparator pointer
+   `int (*cmp)(const void*, const void*)` is `Option (Nat → Nat → Int)`; with `elem=True` in TABLE a `void *`
+   is an element handle (`Nat`), `void **` an array of them.  `mem_alloc(n * sizeof(elem))` yields a block of
+   `(n * 8 mod 2^64) / 8` slots whose contents are taken to be 0 (unspecified in C; as in the models).
+
+STILL IGNORED (said here so that nobody assumes otherwise): macros from headers beyond what Constants.lean
+lists; struct layout and `sizeof` values other than 8 for pointers and 64-bit integers (LP64); the byte size
+product of `calloc(n, size)` (the allocator's business); aliasing between different pointers; reads of
+uninitialised locals (they read as 0); `(size_t) <float>` outside the range of size_t (undefined in C,
+saturating here).
+NOT TRANSLATED: `src/memory/cc_dynamic_pool.c` (its `PageInfo` headers live inside raw allocator blocks and are
+reached by casts such as `(PageInfo*) pool->page` and `new_page + sizeof(PageInfo)`; `destroy`, `reset` and
+`used_bytes` walk the `previous` chain through them — this needs a typed heap of header+payload blocks and an
+abstraction relation to the model's page list instead of a conversion function); `cc_pqueue_destroy_cb`,
+`cc_rbuf` has nothing left out.
 
 Unsupported syntax gives a problem string and `def <f> : Unit := ()`; the translator never raises.
 The output is deterministic."""
@@ -48,10 +65,15 @@ TABLE = [
     dict(file="src/memory/cc_static_pool.c", struct="cc_static_pool_s", arrays=[], memory="bytes",
          funcs=["cc_static_pool_new", "cc_static_pool_reset", "cc_static_pool_malloc", "cc_static_pool_calloc",
                 "cc_static_pool_free", "cc_static_pool_used_bytes", "cc_static_pool_free_bytes"]),
+    # elem=True: `void *` is an element handle (a Nat), `void **` an array of them / an out-parameter
+    dict(file="src/cc_pqueue.c", struct="cc_pqueue_s", arrays=["buffer"], memory=None, elem=True,
+         funcs=["cc_pqueue_conf_init", "cc_pqueue_new_conf", "cc_pqueue_new", "cc_pqueue_destroy",
+                "cc_pqueue_push", "cc_pqueue_top", "cc_pqueue_pop"]),
 ]
 
 NAT64 = {"size_t", "uint64_t", "uintptr_t"}
 BYTE_BASES = {"uint8_t", "void", "char"}
+FUEL = "fuel"
 TYPEWORDS = NAT64 | {"uint8_t", "uint16_t", "uint32_t", "unsigned", "int", "char", "bool", "void", "const", "enum",
                      "struct", "long", "short", "signed", "int8_t", "int16_t", "int32_t", "int64_t", "float", "double"}
 SIZE_MOD = 2 ** 64
@@ -145,7 +167,38 @@ class Parser:
             e = None if self.peek() == ";" else self.expr()
             self.eat(";")
             return ("ret", e)
-        if t in ("for", "while", "do", "switch", "goto", "break", "continue", "case", "default"):
+        if t == "while":
+            self.eat()
+            self.eat("(")
+            c = self.expr()
+            self.eat(")")
+            return ("while", c, self.statement())
+        if t == "do":
+            self.eat()
+            body = self.statement()
+            self.eat("while")
+            self.eat("(")
+            c = self.expr()
+            self.eat(")")
+            self.eat(";")
+            return ("block", [body, ("while", c, body)])
+        if t == "for":
+            self.eat()
+            self.eat("(")
+            init = self.statement()           # a declaration or an expression statement, eats the `;`
+            c = ("boollit", "true") if self.peek() == ";" else self.expr()
+            self.eat(";")
+            step = None if self.peek() == ")" else self.expr()
+            self.eat(")")
+            body = self.statement()
+            if step is not None and has_jump(body, ("continue",)):
+                raise TErr("`continue` inside a `for` loop with a step expression")
+            return ("block", [init, ("while", c, ("block", [body] + ([("expr", step)] if step else [])))])
+        if t in ("break", "continue"):
+            self.eat()
+            self.eat(";")
+            return (t,)
+        if t in ("switch", "goto", "case", "default"):
             raise TErr(f"`{t}` statements are not translated")
         if t in self.types:
             ty = self.type_tokens()
@@ -327,12 +380,19 @@ def mk_type(ty, tdefs, where, ctx):
         return "bool"
     if base == "int" and stars == 0:
         return "int"
+    if base == "float" and stars == 0:
+        return "float"
     if base == "void" and stars == 0 and ctx == "ret":
         return "void"
+    if tdefs.get("__elem__") and base == "void":
+        if stars == 1:
+            return "nat"                     # an element handle
+        if stars == 2:
+            return ("out", "nat") if ctx == "param" else "arr"
     if base in NAT64:
         if stars == 0:
             return "nat"
-        if stars == 1 and base == "uint64_t":
+        if stars == 1 and base == "uint64_t" and not tdefs.get("__elem__"):
             return ("out", "nat") if ctx == "param" else "arr"
         if stars == 1 and ctx == "param":
             return ("out", "nat")
@@ -358,8 +418,10 @@ def lean_ty(t):
             return f"Option {atomty(lean_ty(t[1]))}"
         if t[0] == "fn":
             return "Option Triple"
+        if t[0] == "cmp":
+            return "Option (Nat → Nat → Int)"
     return {"nat": "Nat", "int": "Int", "bool": "Bool", "ptr": "Ptr", "stat": "Nat", "arr": "List Nat",
-            "mem": "Mem", "flag": "Bool"}[t]
+            "mem": "Mem", "flag": "Bool", "float": "Float32", "fuelt": "Nat"}[t]
 
 
 def atomty(s):
@@ -371,7 +433,7 @@ def zero_of(t):
         if t[0] in ("sp", "sv"):
             return f"{lean_ident(t[1])}.zero"
         return "none"
-    return {"nat": "0", "int": "0", "bool": "false", "ptr": "none", "stat": "0", "arr": "[]"}[t]
+    return {"nat": "0", "int": "0", "bool": "false", "ptr": "none", "stat": "0", "arr": "[]", "float": "(0 : Float32)"}[t]
 
 
 class Sig:
@@ -385,6 +447,9 @@ class Sig:
         self.faults = False     # has a `fault` component
         self.extras = []        # [(lean name, lean type)]: arbitrary initial contents of uninitialised objects
         self.calls = set()
+        self.fuel = False       # has a loop / is recursive / calls such a function: takes `fuel`
+        self.recursive = False
+        self.out_nn = []        # out-parameters the function tests for NULL: extra Bool parameters
 
     def components(self):
         c = []
@@ -422,6 +487,9 @@ def walk_exprs(node, f):
         walk_exprs(node[2], f)
         if node[3]:
             walk_exprs(node[3], f)
+    elif k == "while":
+        walk_exprs(node[1], f)
+        walk_exprs(node[2], f)
     elif k == "ret":
         if node[1]:
             walk_exprs(node[1], f)
@@ -469,6 +537,33 @@ def has_return(s):
         return any(has_return(x) for x in s[1])
     if s[0] == "if":
         return has_return(s[2]) or has_return(s[3])
+    if s[0] == "while":
+        return has_return(s[2])
+    return False
+
+
+def has_jump(s, kinds=("break", "continue")):
+    """a `break` / `continue` that belongs to the enclosing loop"""
+    if s is None:
+        return False
+    if s[0] in kinds:
+        return True
+    if s[0] == "block":
+        return any(has_jump(x, kinds) for x in s[1])
+    if s[0] == "if":
+        return has_jump(s[2], kinds) or has_jump(s[3], kinds)
+    return False
+
+
+def has_loop(s):
+    if s is None:
+        return False
+    if s[0] == "while":
+        return True
+    if s[0] == "block":
+        return any(has_loop(x) for x in s[1])
+    if s[0] == "if":
+        return has_loop(s[2]) or has_loop(s[3])
     return False
 
 
@@ -518,6 +613,8 @@ class Emit:
         self.nn = {}            # lvalue key -> lean Bool text: "this pointer is not NULL"
         self.fault_used = False
         self.extras = []
+        self.aux = []           # auxiliary definitions (loops), emitted in front of the function
+        self.nloops = 0
 
     def fresh(self, env, stem="r"):
         while True:
@@ -546,6 +643,8 @@ class Emit:
         if k == "num":
             if want == "int":
                 return str(e[1]), "int", None
+            if want == "float":
+                return f"(Float32.ofNat {e[1]})", "float", None
             if want == "ptr":
                 if e[1] == 0:
                     return "none", "ptr", None
@@ -560,7 +659,7 @@ class Emit:
                 t = env[e[1]]
                 if isinstance(t, tuple) and t[0] == "out":
                     raise TErr(f"out-parameter `{e[1]}` used as a value")
-                if t in ("mem", "flag"):
+                if t in ("mem", "flag", "fuelt"):
                     raise TErr(f"`{e[1]}` clashes with a name the translation uses")
                 return lean_ident(e[1]), t, None
             if e[1] in LIBC and isinstance(want, tuple) and want[0] == "fn":
@@ -597,6 +696,8 @@ class Emit:
                     return x, "nat", ok
                 if xt == "int":
                     return f"(castSizeT {x})", "nat", ok
+                if xt == "float":
+                    return f"(Float32.toUInt64 {x}).toNat", "nat", ok
             if t == "ptr":
                 x, xt, ok = self.E(e[2], env, "ptr")
                 if xt == "ptr":
@@ -640,8 +741,8 @@ class Emit:
             f = e[1]
             s = self.sigs.get(f)
             if isinstance(s, Sig):
-                if s.mut or s.outs or s.mem:
-                    raise TErr(f"call of `{f}` (which modifies its arguments or allocates) inside an expression")
+                if s.mut or s.outs or s.mem or s.fuel:
+                    raise TErr(f"call of `{f}` (which modifies its arguments, allocates or loops) inside an expression")
                 if s.ret == "void":
                     raise TErr(f"value of the void function `{f}`")
                 text, ok = self.call_text(s, e[2], env)
@@ -652,9 +753,20 @@ class Emit:
         if k in ("assign", "pre", "post"):
             raise TErr("side effect inside an expression")
         if k == "callp":
-            raise TErr("call through a function pointer inside an expression")
+            f, ft, ok = self.E(e[1], env)
+            if ft == ("cmp",):
+                if len(e[2]) != 2:
+                    raise TErr("comparator called with other than 2 arguments")
+                a, oka = self.coerce(e[2][0], env, "nat")
+                b, okb = self.coerce(e[2][1], env, "nat")
+                return (f"(({f}.getD (fun _ _ => 0)) {self.atom(a)} {self.atom(b)})", "int",
+                        conj(conj(ok, f"{f}.isSome"), conj(oka, okb)))
+            raise TErr("call through an allocator pointer inside an expression")
         if k == "sizeof":
-            raise TErr("sizeof outside an allocator call")
+            words, stars = e[1]
+            if stars >= 1 or (len(words) == 1 and words[0] in NAT64):
+                return "8", "nat", None          # LP64: pointers and the 64-bit integers
+            raise TErr("sizeof of this type as a number")
         raise TErr(f"expression form `{k}`")
 
     def index(self, ie, env, arr):
@@ -687,6 +799,18 @@ class Emit:
             else:
                 tb, tyb = f"(castSizeT {tb})", "nat"
         ok = conj(oka, okb)
+        if "float" in (tya, tyb):
+            if tya == "nat":
+                ta, tya = f"(Float32.ofNat {ta})", "float"
+            if tyb == "nat":
+                tb, tyb = f"(Float32.ofNat {tb})", "float"
+            if tya != "float" or tyb != "float":
+                raise TErr(f"`{op}` on a float and an operand of kind {self.show(tya if tya != 'float' else tyb)}")
+            if op in gg.CMP:
+                return f"decide ({ta} {gg.CMP[op]} {tb})", "bool", ok
+            if op in ("+", "-", "*", "/"):
+                return f"({ta} {op} {tb})", "float", ok
+            raise TErr(f"`{op}` on floats")
         if op in gg.CMP:
             if tya != tyb or not (tya in ("nat", "int", "ptr", "bool", "stat") or (isinstance(tya, tuple) and tya[0] == "fn")):
                 raise TErr(f"comparison `{op}` of different kinds of operands")
@@ -698,7 +822,8 @@ class Emit:
             if fn:
                 return f"({fn} {ta} {tb})", "nat", ok
             if op in ("/", "%"):
-                return f"({ta} {op} {tb})", "nat", conj(ok, f"decide ({tb} ≠ 0)")
+                nz = None if re.match(r"^[1-9]\d*$", tb) else f"decide ({tb} ≠ 0)"
+                return f"({ta} {op} {tb})", "nat", conj(ok, nz)
         if tya == "int" and tyb == "int" and op in ("+", "-", "*"):
             r = f"({ta} {op} {tb})"
             return r, "int", conj(ok, f"intOk {r}")
@@ -726,6 +851,8 @@ class Emit:
             return f"decide ({t} ≠ 0)", ok
         if ty == "ptr" or (isinstance(ty, tuple) and ty[0] == "fn"):
             return f"decide ({t} ≠ none)", ok
+        if ty == ("cmp",):
+            return f"{t}.isSome", ok
         raise TErr("truth value of this expression (a struct or array pointer whose NULL-ness is not tracked)")
 
     def coerce(self, e, env, ty):
@@ -736,6 +863,8 @@ class Emit:
             got = "stat"
         if got == "lit" and ty == "bool":
             return f"decide ({t} ≠ 0)", ok
+        if got == "nat" and ty == "float":
+            return f"(Float32.ofNat {t})", ok
         if got != ty:
             raise TErr(f"a value of kind {self.show(got)} where {self.show(ty)} is expected "
                        f"(implicit conversions are not translated; write the cast)")
@@ -772,8 +901,12 @@ class Emit:
             if (n, ty) not in self.extras:
                 self.extras.append((n, ty))
             out.append(n)
+        if s.out_nn:
+            raise TErr(f"`{s.name}` tests an out-parameter for NULL; calls of it are not translated")
         if s.mem:
             out.append(MEM)
+        if s.fuel:
+            out.append(FUEL)
         return " ".join(out), ok
 
     @staticmethod
@@ -808,6 +941,8 @@ class Emit:
             if self.sig.ret != "void":
                 raise TErr("control reaches the end of a non-void function")
             return self.result(None, env)
+        if k[0] == "text":
+            return k[1]
         vs = [lean_ident(v) for v in k[1]]
         return vs[0] if len(vs) == 1 else "(" + ", ".join(vs) + ")"
 
@@ -850,12 +985,14 @@ class Emit:
             t = env.get(lhs[2][1])
             if isinstance(t, tuple) and t[0] == "out":
                 v, ok = val_of(t[1])
+                if lhs[2][1] + "_nn" in env:
+                    ok = conj(ok, lean_ident(lhs[2][1] + "_nn"))
                 return self.chk(ok) + [f"let {lean_ident(lhs[2][1])} := some {self.atom(v)}"]
         raise TErr("assignment to something that is not a variable, a field, an array slot or `*out`")
 
     def sibling_effect(self, e):
         s = self.sigs.get(e[1]) if e[0] == "call" else None
-        return isinstance(s, Sig) and bool(s.mut or s.outs or s.mem)
+        return isinstance(s, Sig) and bool(s.mut or s.outs or s.mem or s.fuel)
 
     def do_call(self, e, env, bind):
         """lines for a call of a sibling that modifies / allocates; bind = lvalue for the return value or None"""
@@ -922,10 +1059,19 @@ class Emit:
             return lines + [f"let {lean_ident(declare)} : {lean_ty(lty)} := {zero_of(lty)}",
                             f"let {lean_ident(declare)}_nn := {flag}"]
         if lty == "arr":
-            if role != "calloc" or len(args) != 2 or args[1][0] != "sizeof" or args[1][1] != (("uint64_t",), 0):
-                raise TErr("an array must come from `mem_calloc(n, sizeof(uint64_t))`")
-            n, ok = self.coerce(args[0], env, "nat")
-            val = f"(if {flag} then Buf.mk {self.atom(n)} else [])"
+            elem = (("void",), 1) if self.cfg["tdefs"].get("__elem__") else (("uint64_t",), 0)
+            if role == "calloc" and len(args) == 2 and args[1] == ("sizeof", elem):
+                n, ok = self.coerce(args[0], env, "nat")
+                ln = self.atom(n)
+            elif role == "alloc" and len(args) == 1 and args[0][0] == "bin" and args[0][1] == "*" and args[0][3] == ("sizeof", elem):
+                # `mem_alloc(n * sizeof(elem))`: the byte size is a size_t product (it may wrap); the block
+                # holds as many elements as fit.  Its contents are unspecified in C; like the models the
+                # translation takes them to be 0 (a read before the first write is not detected).
+                n, ok = self.coerce(args[0][2], env, "nat")
+                ln = f"((wmul {self.atom(n)} 8) / 8)"
+            else:
+                raise TErr("an array must come from `mem_calloc(n, sizeof(elem))` or `mem_alloc(n * sizeof(elem))`")
+            val = f"(if {flag} then Buf.mk {ln} else [])"
             if declare is not None:
                 return lines + self.chk(ok) + [f"let {lean_ident(declare)} : List Nat := {val}",
                                                f"let {lean_ident(declare)}_nn := {flag}"]
@@ -977,6 +1123,22 @@ class Emit:
                 b = reg.split(".")[0]
                 ok = conj(conj(ok1, conj(ok2, ok3)), f"memsetOk {reg} {self.atom(p)} {self.atom(n)}")
                 return self.chk(ok) + [f"let {b} : {lean_ident(self.cfg['struct'])} := {{ {b} with {self.cfg['memory']} := memsetBytes {reg} {self.atom(p)} {self.atom(v)} {self.atom(n)} }}"]
+            if e[1] == "memcpy":
+                elem = (("void",), 1) if self.cfg["tdefs"].get("__elem__") else (("uint64_t",), 0)
+                a = e[2]
+                if len(a) != 3 or a[0][0] != "id" or env.get(a[0][1]) != "arr" or not (
+                        a[2][0] == "bin" and a[2][1] == "*" and a[2][3] == ("sizeof", elem)):
+                    raise TErr("memcpy other than `memcpy(<local array>, <array>, n * sizeof(elem))`")
+                src, st, ok1 = self.E(a[1], env)
+                if st != "arr":
+                    raise TErr("memcpy from something that is not an array")
+                n, ok2 = self.coerce(a[2][2], env, "nat")
+                d = lean_ident(a[0][1])
+                cnt = f"((wmul {self.atom(n)} 8) / 8)"
+                ok = conj(conj(ok1, ok2), f"(decide ({cnt} ≤ List.length {d}) && decide ({cnt} ≤ List.length {src}))")
+                if a[0][1] + "_nn" in env:
+                    ok = conj(ok, lean_ident(a[0][1] + "_nn"))
+                return self.chk(ok) + [f"let {d} : List Nat := Buf.memcpy {d} 0 {src} 0 {cnt}"]
             if self.sibling_effect(e):
                 return self.do_call(e, env, None)
             _, _, ok = self.E(e, env)       # a pure call: type-check it, keep its checks
@@ -998,6 +1160,8 @@ class Emit:
             if x[0] == "assign" or x[0] in ("pre", "post"):
                 acc.add(root_var(x[2]))
             elif x[0] == "call":
+                if x[1] == "memcpy" and x[2] and x[2][0][0] == "id":
+                    acc.add(x[2][0][1])
                 if x[1] == "memset":
                     reg = self.memvar(env)
                     if reg:
@@ -1065,7 +1229,15 @@ class Emit:
             return [pad + l for l in lines] + self.seq(rest, env, k, ind)
         if kind == "expr":
             return [pad + l for l in self.effect(s[1], env)] + self.seq(rest, env, k, ind)
+        if kind == "while":
+            return self.loop(s, rest, env, k, ind)
+        if kind in ("break", "continue"):
+            if k[0] != "text":
+                raise TErr(f"`{kind}` outside a loop")
+            return [pad + (k[2] if kind == "break" else k[1])]
         if kind == "ret":
+            if k[0] == "text":
+                raise TErr("`return` inside a loop")
             if k[0] != "fn":
                 raise TErr("internal: return inside a joined branch")
             if s[1] is None:
@@ -1090,7 +1262,18 @@ class Emit:
                 return self.seq([("expr", c[2]), ("if", ("un", "!", c[2][2]), s1, s2)] + rest, env, k, ind)
             ctext, cok = self.cond(c, env)
             head = [pad + l for l in self.chk(cok)]
+            if has_jump(s1) or has_jump(s2):
+                if k[0] != "text":
+                    raise TErr("`break` / `continue` outside a loop")
+                nn0 = dict(self.nn)
+                a = self.seq([s1] + rest, dict(env), k, ind + 1)
+                self.nn = dict(nn0)
+                b = self.seq(([s2] if s2 else []) + rest, dict(env), k, ind + 1)
+                self.nn = nn0
+                return head + [pad + f"if {ctext} then"] + a + [pad + "else"] + b
             if has_return(s1) or has_return(s2):
+                if k[0] == "text":
+                    raise TErr("`return` inside a loop")
                 if k[0] != "fn":
                     raise TErr("internal: return inside a joined branch")
                 nn0 = dict(self.nn)
@@ -1129,6 +1312,63 @@ class Emit:
                     + self.seq(rest, env, k, ind))
         raise TErr(f"statement form `{kind}`")
 
+    def loop(self, s, rest, env, k, ind):
+        """`while (c) body` as a fuel-bounded recursive definition over the variables the body assigns"""
+        pad = "  " * ind
+        c, body = s[1], s[2]
+        if FUEL not in env:
+            raise TErr("internal: loop in a function without fuel")
+        acc = set()
+        self.assigned(body, env, acc)
+        unknown = sorted(acc - set(env) - self.local_decls(body))
+        if unknown:
+            raise TErr(f"assignment to unknown `{unknown[0]}`")
+        vs = [v for v in env if v in acc]
+        if MEM in env:
+            trial = self.seq([body], dict(env), ("text", "_", "_"), 0)
+            if any(re.match(rf"\s*let {MEM} :=", l) for l in trial):
+                vs.append(MEM)
+        if FAULT in env:
+            vs.append(FAULT)        # running out of fuel is reported as a fault
+        self.fault_used = True
+        if not vs:
+            raise TErr("a loop that assigns nothing")
+        tys = [atomty(lean_ty(env[v])) for v in vs]
+        rty = " × ".join(tys)
+        tup = lambda xs: xs[0] if len(xs) == 1 else "(" + ", ".join(xs) + ")"
+        names = [lean_ident(v) for v in vs]
+        ctext, cok = self.cond(c, env)
+        # the read-only variables the loop mentions become parameters of its definition
+        probe = " ".join(self.seq([body], dict(env), ("text", "_", "__exit__"), 0) + [ctext, cok or ""])
+        words = set(re.findall(r"[A-Za-z_][\w']*", probe))
+        ro = [v for v in env if v not in vs and v != FUEL and lean_ident(v) in words]
+        key = (tuple(ro), tuple(vs), probe)
+        if key in getattr(self, "loopcache", {}):
+            name = self.loopcache[key]
+            call = " ".join([name] + [lean_ident(v) for v in ro] + [FUEL] + names)
+            j = self.fresh(env, "j")
+            out = [pad + f"let {j} : {rty} := {call}"]
+            out += [pad + f"let {n} := {proj(j, i, len(vs))}" for i, n in enumerate(names)]
+            return out + self.seq(rest, env, k, ind)
+        self.nloops += 1
+        name = f"{self.sig.lean}_loop{self.nloops}"
+        self.loopcache = dict(getattr(self, "loopcache", {}))
+        self.loopcache[key] = name
+        call = " ".join([name] + [lean_ident(v) for v in ro] + [FUEL] + names)
+        inner = self.seq([body], dict(env), ("text", call, tup(names)), 3)
+        exhausted = tup([("true" if v == FAULT else lean_ident(v)) for v in vs])
+        d = [f"/-- the {'first second third fourth fifth'.split()[min(self.nloops, 5) - 1]} loop of `{self.sig.name}`: `{FUEL}` bounds the number of iterations, running out of it is a fault -/",
+             f"def {name}" + "".join(f" ({lean_ident(v)} : {lean_ty(env[v])})" for v in ro) + f" : Nat → " + " → ".join(tys) + f" → {rty}",
+             f"  | 0, " + ", ".join(names) + f" => {exhausted}",
+             f"  | {FUEL} + 1, " + ", ".join(names) + " =>"]
+        d += ["    " + l for l in self.chk(cok)]
+        d += [f"    if {ctext} then"] + inner + ["    else", "      " + tup(names)]
+        self.aux.append(d)
+        j = self.fresh(env, "j")
+        out = [pad + f"let {j} : {rty} := {call}"]
+        out += [pad + f"let {n} := {proj(j, i, len(vs))}" for i, n in enumerate(names)]
+        return out + self.seq(rest, env, k, ind)
+
     @staticmethod
     def local_decls(s):
         out = set()
@@ -1149,6 +1389,87 @@ class Emit:
 
 
 # ---- per file --------------------------------------------------------------------------------------------
+
+def file_macros(txt):
+    """`#define`s of the file: {name: (params or None, body tokens)}; other directives than #include are refused"""
+    txt = re.sub(r"\\\n", " ", txt)
+    macros = {}
+    for m in re.finditer(r"^[ \t]*#[ \t]*(\w+)(.*)$", txt, re.M):
+        d, restl = m.group(1), m.group(2)
+        if d == "include":
+            continue
+        if d != "define":
+            raise TErr(f"preprocessor directive `#{d}` inside a translated file")
+        mm = re.match(r"^[ \t]+(\w+)(\([^)]*\))?(.*)$", restl)
+        if not mm:
+            raise TErr(f"`#define{restl[:30]}`")
+        params = None
+        if mm.group(2) is not None:
+            params = [x.strip() for x in mm.group(2)[1:-1].split(",") if x.strip()]
+        macros[mm.group(1)] = (params, tokenize(mm.group(3)))
+    return macros
+
+
+def expand(toks, macros, hide=frozenset()):
+    """textual macro expansion, as the preprocessor does it (no parentheses are added)"""
+    out, i = [], 0
+    while i < len(toks):
+        t = toks[i]
+        if t in macros and t not in hide:
+            params, body = macros[t]
+            if params is None:
+                out += expand(body, macros, hide | {t})
+                i += 1
+                continue
+            if i + 1 < len(toks) and toks[i + 1] == "(":
+                depth, j, args, cur = 0, i + 1, [], []
+                while j < len(toks):
+                    x = toks[j]
+                    if x == "(":
+                        depth += 1
+                        if depth > 1:
+                            cur.append(x)
+                    elif x == ")":
+                        depth -= 1
+                        if depth == 0:
+                            break
+                        cur.append(x)
+                    elif x == "," and depth == 1:
+                        args.append(cur)
+                        cur = []
+                    else:
+                        cur.append(x)
+                    j += 1
+                if depth != 0:
+                    raise TErr(f"unbalanced arguments of macro {t}")
+                if cur or args:
+                    args.append(cur)
+                if len(args) != len(params):
+                    raise TErr(f"macro {t} used with {len(args)} arguments")
+                amap = {pn: expand(a, macros, hide) for pn, a in zip(params, args)}
+                sub = []
+                for b in body:
+                    sub += amap[b] if b in amap else [b]
+                out += expand(sub, macros, hide | {t})
+                i = j + 1
+                continue
+        out.append(t)
+        i += 1
+    return out
+
+
+def struct_text(repo, txt, tag):
+    """the text that defines `struct tag {`: the .c file, else a header of src/include"""
+    if re.search(r"\bstruct\s+" + re.escape(tag) + r"\s*\{", txt):
+        return txt
+    inc = Path(repo, "src", "include")
+    if inc.is_dir():
+        for p in sorted(inc.rglob("*.h")):
+            t = gg.strip_comments(p.read_text(errors="replace"))
+            if re.search(r"\bstruct\s+" + re.escape(tag) + r"\s*\{", t):
+                return t
+    return txt
+
 
 def parse_struct(txt, tag, cfg, tdefs, main):
     """all fields of `struct tag { ... };` -> ordered {name: type}"""
@@ -1174,6 +1495,10 @@ def parse_struct(txt, tag, cfg, tdefs, main):
             else:
                 raise TErr(f"function pointer field `{name}` is not one of the allocator triple")
             continue
+        cp = re.match(r"^int\s*\(\s*\*\s*(\w+)\s*\)\s*\(\s*const\s+void\s*\*\s*\w*\s*,\s*const\s+void\s*\*\s*\w*\s*\)$", decl)
+        if cp:
+            fields[cp.group(1)] = ("cmp",)
+            continue
         if "(" in decl:
             raise TErr(f"field declaration `{decl}`")
         mm = re.match(r"^((?:const\s+)?(?:enum\s+\w+|struct\s+\w+|\w+)(?:\s+\w+)*?)\s*((?:\**\s*\w+\s*,\s*)*\**\s*\w+)$", decl)
@@ -1190,8 +1515,10 @@ def parse_struct(txt, tag, cfg, tdefs, main):
                     raise TErr(f"array field `{name}` is not a `uint64_t *`")
             elif t == "arr":
                 raise TErr(f"field `{name}`: a pointer to uint64_t that is not declared an array of the container")
-            elif t not in ("nat", "ptr", "int", "bool"):
+            elif t not in ("nat", "ptr", "int", "bool", "float"):
                 raise TErr(f"field `{name}` of this type")
+            if name in fields:
+                raise TErr(f"field `{name}` is declared twice")
             fields[name] = t
     if main:
         for a in cfg["arrays"]:
@@ -1213,8 +1540,13 @@ def typedefs_of(repo, tags):
             except OSError:
                 continue
             for tag, name in re.findall(r"\btypedef\s+struct\s+(\w+)\s+(\w+)\s*;", t):
-                if tag in tags:
+                if tags is None or tag in tags:
                     out[name] = tag
+            for m in re.finditer(r"\btypedef\s+struct\s+(\w+)\s*\{", t):
+                cb = gg.match_close(t, m.end() - 1, "{", "}")
+                mm = re.match(r"\s*(\w+)\s*;", t[cb + 1:])
+                if mm and (tags is None or m.group(1) in tags):
+                    out[mm.group(1)] = m.group(1)
     return out
 
 
@@ -1278,15 +1610,29 @@ def one_file(repo, cfg, consts):
         if not p.exists():
             raise TErr(f"{f} does not exist")
         txt = gg.strip_comments(p.read_text(errors="replace"))
-        mac = re.search(r"^[ \t]*#[ \t]*(define|undef)\b.*$", txt, re.M)
-        if mac:
-            raise TErr(f"the file contains `{mac.group(0).strip()[:40]}`: macros inside a translated file are refused")
+        macros = file_macros(txt)
+        alltd = typedefs_of(repo, None)
+        # the structs the file works with: its own, and those whose typedef name it mentions
         tags = [tag] + [t for t in re.findall(r"\bstruct\s+(\w+)\s*\{", txt) if t != tag]
-        tdefs = typedefs_of(repo, tags)
+        tags += [tg for n, tg in sorted(alltd.items()) if tg not in tags and re.search(r"\b" + re.escape(n) + r"\b", txt)]
+        tdefs = {n: tg for n, tg in alltd.items() if tg in tags}
         if tag not in tdefs.values():
             raise TErr(f"no `typedef struct {tag} X;` in src/include")
+        if cfg.get("elem"):
+            tdefs["__elem__"] = True
         cfg = dict(cfg, tdefs=tdefs)
-        structs = {tag: dict(fields=parse_struct(txt, tag, cfg, tdefs, True))}
+
+        def stext(tg):
+            t = struct_text(repo, txt, tg)
+            m = re.search(r"\bstruct\s+" + re.escape(tg) + r"\s*\{", t)
+            if m and macros:
+                cb = gg.match_close(t, m.end() - 1, "{", "}")
+                body = t[m.end():cb]
+                if any(re.search(r"\b" + re.escape(k) + r"\b", body) for k in macros):
+                    body = " ".join(expand(tokenize(body), macros))
+                    t = t[:m.end()] + body + t[cb:]
+            return t
+        structs = {tag: dict(fields=parse_struct(stext(tag), tag, cfg, tdefs, True))}
     except TErr as ex:
         problems.append(f"gen_funcs: struct {tag} ({f}): {ex}")
     except Exception as ex:
@@ -1302,12 +1648,12 @@ def one_file(repo, cfg, consts):
     for t in tags[1:]:
         if t in tdefs.values():
             try:
-                structs[t] = dict(fields=parse_struct(txt, t, cfg, tdefs, False))
+                structs[t] = dict(fields=parse_struct(stext(t), t, cfg, tdefs, False))
             except TErr:
                 for n in [n for n, tg in tdefs.items() if tg == t]:
                     del tdefs[n]
     for t in list(tdefs):
-        if tdefs[t] not in structs:
+        if not t.startswith("__") and tdefs[t] not in structs:
             del tdefs[t]
     for t, d in structs.items():
         lines += record_lines(t, d["fields"], cfg, t == tag, f)
@@ -1325,11 +1671,17 @@ def one_file(repo, cfg, consts):
             part = " ".join(part.split())
             if part in ("", "void"):
                 continue
+            cpm = re.match(r"^int\s*\(\s*\*\s*(\w+)\s*\)\s*\(\s*const\s+void\s*\*\s*\w*\s*,\s*const\s+void\s*\*\s*\w*\s*\)$", part)
+            if cpm:
+                params.append((cpm.group(1), ("cmp",)))
+                continue
             mm = re.match(r"^(.*?)(\w+)$", part)
-            if not mm or not mm.group(1).strip():
+            if not mm or not mm.group(1).strip() or "(" in part:
                 raise TErr(f"parameter `{part}`")
             params.append((mm.group(2), mk_type(split_type(mm.group(1)), tdefs, f"parameter {mm.group(2)}", "param")))
-        ps = Parser(tokenize(body), list(tdefs))
+        if any(re.search(r"\b" + re.escape(k) + r"\b", ptxt) for k in macros):
+            raise TErr("a macro of the file is used in the parameter list")
+        ps = Parser(expand(tokenize(body), macros), [t for t in tdefs if not t.startswith("__")])
         items = ps.block_items()
         if ps.peek() is not None:
             raise TErr(f"unexpected `{ps.peek()}`")
@@ -1382,15 +1734,42 @@ def one_file(repo, cfg, consts):
                 for n, t in s.params:
                     if t == ("sp", tag):
                         mut.add(n)
-            if x[0] == "callp":
+            if x[0] == "callp" and x[1][0] == "arrow" and any(
+                    isinstance(d["fields"].get(x[1][2]), tuple) and d["fields"][x[1][2]][0] == "fn" for d in structs.values()):
                 mem[0] = True
         for st in s.body:
             walk_exprs(st, visit)
         return mut, mem[0]
+
+    def nn_tests(s):
+        """out-parameters whose NULL-ness the function tests (`if (out)`)"""
+        outs = [n for n, _ in s.outs]
+        found = []
+
+        def conds(st):
+            if st is None:
+                return
+            if st[0] == "block":
+                for y in st[1]:
+                    conds(y)
+            elif st[0] in ("if", "while"):
+                def visit(x):
+                    if x[0] == "id" and x[1] in outs and x[1] not in found:
+                        found.append(x[1])
+                walk_exprs(st[1], visit)
+                conds(st[2])
+                if st[0] == "if":
+                    conds(st[3])
+        for st in s.body:
+            conds(st)
+        return found
     for fn in order:
         s = sigs[fn]
         mut, s.mem = direct(s)
         s.mut = [n for n, _ in s.params if n in mut]
+        s.recursive = fn in s.calls
+        s.fuel = s.recursive or any(has_loop(st) for st in s.body)
+        s.out_nn = nn_tests(s)
     changed = True
     while changed:
         changed = False
@@ -1403,6 +1782,8 @@ def one_file(repo, cfg, consts):
                 if isinstance(c, Sig):
                     if c.mem and not s.mem:
                         s.mem = changed = True
+                    if c.fuel and not s.fuel:
+                        s.fuel = changed = True
                     for (pn, pt), a in zip(c.params, x[2]):
                         if pn in c.mut and a[0] == "id" and a[1] in dict(s.params) and a[1] not in s.mut \
                                 and isinstance(dict(s.params)[a[1]], tuple) and dict(s.params)[a[1]][0] == "sp":
@@ -1442,23 +1823,46 @@ def one_file(repo, cfg, consts):
                         if n in (FAULT, MEM) or n.endswith("_nn"):
                             raise TErr(f"parameter `{n}` clashes with a name the translation uses")
                         env[n] = t
+                    for n in s.out_nn:
+                        env[n + "_nn"] = "flag"
                     if s.mem:
                         env[MEM] = "mem"
+                    if s.fuel:
+                        if FUEL in env:
+                            raise TErr(f"parameter `{FUEL}` clashes with a name the translation uses")
+                        env[FUEL] = "fuelt"
                     if s.faults:
                         env[FAULT] = "flag"
-                    body = em.seq(list(s.body), env, ("fn",), 1)
+                    body = em.seq(list(s.body), env, ("fn",), 3 if s.recursive else 1)
                     if em.fault_used == s.faults:
                         break
                 s.extras = em.extras
-                pre = [f"  let {lean_ident(n)} : {lean_ty(('out', t))} := none" for n, t in s.outs]
+                ipad = "      " if s.recursive else "  "
+                pre = [f"{ipad}let {lean_ident(n)} : {lean_ty(('out', t))} := none" for n, t in s.outs]
                 if s.faults:
-                    pre.append(f"  let {FAULT} : Bool := false")
+                    pre.append(f"{ipad}let {FAULT} : Bool := false")
                 comps = s.components()
                 rty = " × ".join(atomty(t) if " " in t and "×" not in t and not t.startswith("Option") else t for _, t in comps) if comps else "Unit"
                 args = "".join(f" ({lean_ident(n)} : {lean_ty(t)})" for n, t in s.params if not (isinstance(t, tuple) and t[0] == "out"))
                 args += "".join(f" ({n} : {ty})" for n, ty in s.extras)
+                args += "".join(f" ({lean_ident(n)}_nn : Bool)" for n in s.out_nn)
                 if s.mem:
                     args += f" ({MEM} : Mem)"
+                if s.fuel:
+                    args += f" ({FUEL} : Nat)"
+                if s.recursive:
+                    def exh(kd):
+                        if kd == "ret":
+                            return zero_of(s.ret)
+                        if kd.startswith("out:"):
+                            return "none"
+                        if kd.startswith("state:"):
+                            return lean_ident(kd[6:])
+                        return {"mem": MEM, "fault": "true"}[kd]
+                    ex = [exh(kd) for kd, _ in comps]
+                    pre = [f"  match {FUEL} with", f"  | 0 => " + (ex[0] if len(ex) == 1 else "(" + ", ".join(ex) + ")"),
+                           f"  | {FUEL} + 1 =>"] + pre
+                aux = [l for d in em.aux for l in d]
 
                 def say(kd):
                     if kd == "ret":
@@ -1469,12 +1873,16 @@ def one_file(repo, cfg, consts):
                         return f"`*{kd[6:]}`"
                     return {"mem": "the ledger", "fault": "`fault` (undefined behaviour happened)"}[kd]
                 what = ", ".join(say(kd) for kd, _ in comps) or "nothing"
-                if s.helper:
-                    text = [f"/-- file-local helper `{fn}` (`{f}`); `simp` unfolds it, so the agreement proofs see through it; returns {what} -/",
-                            f"@[simp] def {s.lean}{args} : {rty} :="] + pre + body
+                note = (f"; `{FUEL}` bounds the recursion depth / the loop iterations, running out of it is a fault" if s.fuel else "")
+                if s.helper and not s.fuel:
+                    text = aux + [f"/-- file-local helper `{fn}` (`{f}`); `simp` unfolds it, so the agreement proofs see through it; returns {what} -/",
+                                  f"@[simp] def {s.lean}{args} : {rty} :="] + pre + body
+                elif s.helper:
+                    text = aux + [f"/-- file-local helper `{fn}` (`{f}`); returns {what}{note} -/",
+                                  f"def {s.lean}{args} : {rty} :="] + pre + body
                 else:
-                    text = [f"/-- `{fn}` (`{f}`), translated statement by statement; returns {what} -/",
-                            f"def {fn}{args} : {rty} :="] + pre + body
+                    text = aux + [f"/-- `{fn}` (`{f}`), translated statement by statement; returns {what}{note} -/",
+                                  f"def {fn}{args} : {rty} :="] + pre + body
                     rng = [r for r in (range_of(t, lean_ident(n)) for n, t in s.params) if r]
                     sc = "".join(f" ({lean_ident(n)} : {lean_ty(t)})" for n, t in s.params if t in ("nat", "int"))
                     if rng:
